@@ -20,6 +20,7 @@ import SigModel.Lemmas.C06b
 import SigModel.Lemmas.C06c
 import SigModel.Model.PipePlan
 import SigModel.Lemmas.C06P
+import SigModel.Lemmas.C06MS
 
 namespace SigModel.Props.C06
 open SigModel.Pipe SigModel.Lemmas.C06
@@ -524,6 +525,100 @@ plan-parallel/sort/order-dropped-limit-kept) -/
 theorem parallel_sort_order_dropped_counterexample_old :
     (mergerBatches (fun _ _ => true) 1 [[[("id", .int 1)]], [[("id", .int 2)]]]).flatten = [[("id", .int 2)]] ∧
     (mergerBatches (lessKeys [("id", true)]) 1 [[[("id", .int 1)]], [[("id", .int 2)]]]).flatten = [[("id", .int 1)]] := by
+  decide
+
+/-! ### a DataProcessor with several input streams (getStreamInput; Model/PipePlan.lean §6, Lemmas/C06MS.lean, op `planms`) -/
+
+open SigModel.Lemmas.C06MS in
+/-- NO two-pass command takes the fast path of getStreamInput (`IgnoresInputOrder() && IsBottleneckCmd()`: whole batches from
+whichever stream answers first): over the flag literals of every DataProcessor kind.  A two-pass command hands its input on in
+input order in its second pass, so it must read the record-level merge. -/
+theorem two_pass_never_reads_unmerged : ∀ d, d ∈ allKinds → d.twoPass = true → d.readsUnmerged = false := by
+  decide
+
+/-- every kind that does take the fast path ignores the order of its input (f(p(rows)) = f(rows)) and is not marked
+order-dependent: sort, stats, timechart, top, rare — and nothing else -/
+theorem unmerged_readers_ignore_order : ∀ d, d ∈ allKinds → d.readsUnmerged = true →
+    d.ignoresOrder = true ∧ d.orderMatters = false ∧ d.twoPass = false ∧ d.name ∈ ["sort", "stats", "timechart", "top", "rare"] := by
+  decide
+
+/-- the condition seed C06-5 widened the fast path to (`!DoesInputOrderMatter() && IsBottleneckCmd()`) WOULD admit the two-pass
+bottlenecks, which do not ignore their input order: `bin` without span and `fillnull` without field list -/
+theorem widened_fast_path_admits_two_pass_counterexample :
+    ¬ (∀ d, d ∈ allKinds → d.twoPass = true → d.readsUnmergedWidened = false) ∧
+    (binDP false).readsUnmergedWidened = true ∧ (binDP false).ignoresOrder = false ∧
+    (fillnullDP false).readsUnmergedWidened = true ∧ (fillnullDP false).ignoresOrder = false := by
+  decide
+
+/-- every stream is sorted in merge order (each is the output of a sorted upstream chain) -/
+def StreamsSorted (ks : List (String × Bool)) (streams : List (List Table)) : Prop :=
+  ∀ s, s ∈ streams → s.flatten.Pairwise (fun a b => leKeys ks a b = true)
+
+/-- C06 for several input streams: a DataProcessor whose flags do NOT satisfy the fast-path condition, reading k ≥ 2 sorted
+streams, hands its processor — in total, over all calls of getStreamInput until EOF — exactly the MERGE of the streams by the
+comparator, cut at the merge limit: whatever the batch boundaries of the streams (each round merges the current batches until
+one is drained, the rest goes back to its stream), whatever the arrival schedule. -/
+theorem multi_stream_input_is_merge (d : Flags) (hd : d.readsUnmerged = false) (ks : List (String × Bool)) (limit : Option Nat)
+    (sched : List Nat) (s₁ s₂ : List Table) (rest : List (List Table))
+    (hs : StreamsSorted ks (s₁ :: s₂ :: rest)) (hu : KeysSeparate ks ((s₁ :: s₂ :: rest).map List.flatten).flatten) :
+    (streamInput d (lessKeys ks) limit sched (s₁ :: s₂ :: rest)).flatten
+      = takeOpt limit ((((s₁ :: s₂ :: rest).map List.flatten).flatten).mergeSort (leKeys ks)) := by
+  simp only [streamInput, hd, Bool.false_eq_true, ↓reduceIte]
+  rw [SigModel.Lemmas.C06MS.msRun_spec (leKeys_trans ks) (leKeys_total ks) (lessKeys_eq ks) limit _ _ 0
+    (by
+      intro s hm
+      rcases List.mem_map.mp hm with ⟨s0, hs0, rfl⟩
+      simpa [MStream.rows] using hs s0 hs0)
+    (by rw [SigModel.Lemmas.C06MS.fresh_rows]; exact hu)
+    (by unfold msFuel; omega)]
+  rw [SigModel.Lemmas.C06MS.fresh_rows]
+  cases limit <;> simp [takeOpt]
+
+/-- … hence the answer does not depend on how the rows are split over the streams nor on how the streams are cut into batches:
+two sets of sorted streams holding the same rows feed the processor the same sequence of rows.  With
+`two_pass_never_reads_unmerged` this covers every two-pass command, and with the flag table head, tail, dedup, streamstats,
+transaction and every row-wise command. -/
+theorem multi_stream_input_independent_of_split (d : Flags) (hd : d.readsUnmerged = false) (ks : List (String × Bool))
+    (limit : Option Nat) (sched₁ sched₂ : List Nat) (a₁ a₂ : List Table) (as : List (List Table)) (b₁ b₂ : List Table)
+    (bs : List (List Table))
+    (hp : ((a₁ :: a₂ :: as).map List.flatten).flatten.Perm ((b₁ :: b₂ :: bs).map List.flatten).flatten)
+    (ha : StreamsSorted ks (a₁ :: a₂ :: as)) (hb : StreamsSorted ks (b₁ :: b₂ :: bs))
+    (hu : KeysSeparate ks ((a₁ :: a₂ :: as).map List.flatten).flatten) :
+    (streamInput d (lessKeys ks) limit sched₁ (a₁ :: a₂ :: as)).flatten
+      = (streamInput d (lessKeys ks) limit sched₂ (b₁ :: b₂ :: bs)).flatten := by
+  have hu2 : KeysSeparate ks ((b₁ :: b₂ :: bs).map List.flatten).flatten := hu.mono (fun x hx => hp.symm.subset hx)
+  rw [multi_stream_input_is_merge d hd ks limit sched₁ a₁ a₂ as ha hu,
+    multi_stream_input_is_merge d hd ks limit sched₂ b₁ b₂ bs hb hu2,
+    mergeSort_perm_eq (leKeys_trans ks) (leKeys_total ks) hu hp]
+
+/-- … and equals what ONE stream holding the merged rows (under the limit) delivers -/
+theorem multi_stream_input_eq_single_stream (d : Flags) (hd : d.readsUnmerged = false) (ks : List (String × Bool))
+    (limit : Option Nat) (sched : List Nat) (s₁ s₂ : List Table) (rest : List (List Table))
+    (hs : StreamsSorted ks (s₁ :: s₂ :: rest)) (hu : KeysSeparate ks ((s₁ :: s₂ :: rest).map List.flatten).flatten) :
+    (streamInput d (lessKeys ks) limit sched (s₁ :: s₂ :: rest)).flatten
+      = (streamInput d (lessKeys ks) limit sched
+          [[takeOpt limit ((((s₁ :: s₂ :: rest).map List.flatten).flatten).mergeSort (leKeys ks))]]).flatten := by
+  rw [multi_stream_input_is_merge d hd ks limit sched s₁ s₂ rest hs hu]
+  simp [streamInput]
+
+/-- the fast path (fetchFromAnyStream), for EVERY arrival schedule: every row of every stream reaches the processor exactly once
+(a permutation of the input).  That the answer of the commands that take it does not depend on this permutation is their flag
+ignoresInputOrder (`unmerged_readers_ignore_order`); for sort that is `chunk_invariant_sort` + `mergeSort_perm_eq`, for stats it is
+tied by the correspondence run only. -/
+theorem fast_path_delivers_a_permutation (d : Flags) (hd : d.readsUnmerged = true) (less : Row → Row → Bool) (limit : Option Nat)
+    (sched : List Nat) (s₁ s₂ : List Table) (rest : List (List Table)) :
+    (streamInput d less limit sched (s₁ :: s₂ :: rest)).flatten.Perm (s₁ :: s₂ :: rest).flatten.flatten := by
+  simp only [streamInput, hd, ↓reduceIte]
+  exact SigModel.Lemmas.C06MS.anyRun_perm _ sched _ (by omega)
+
+/-- what the widened condition costs, on the model: the two-pass `fillnull` reading whole batches in arrival order from the streams
+(ts 10,8 | 6,4) and (ts 9,7 | 5,3), answering in turn, hands on 10,8,9,7,… — not the merge 10,9,8,7,… it hands on as coded -/
+theorem widened_fast_path_order_counterexample :
+    let r (n : Int) : Row := [("timestamp", .int n)]
+    let streams : List (List Table) := [[[r 10, r 8], [r 6, r 4]], [[r 9, r 7], [r 5, r 3]]]
+    (streamInput (fillnullDP false) (lessKeys [("timestamp", false)]) none [] streams).flatten
+        = [r 10, r 9, r 8, r 7, r 6, r 5, r 4, r 3] ∧
+      (anyRun 5 [0, 1, 0, 1] streams).flatten = [r 10, r 8, r 9, r 7, r 6, r 4, r 5, r 3] := by
   decide
 
 end plan
